@@ -26,6 +26,7 @@ CONSTANTS
     MaxCrashes,     \* number of crashes (each followed by recovery)
     MaxSnaps,       \* store snapshots held open (keep superseded files alive)
     MaxReverts,
+    MaxReopens,     \* bound on close/reopen cycles
     AllowReadOnly,  \* a read-only open may follow a close
     Devs            \* deviations of the code from the intended design
 
@@ -42,11 +43,12 @@ VARIABLES
     errs,           \* errors surfaced by Persist / OpenStore
     lastRound,      \* "ok" | "err" | "none": outcome of the last round
     pend,           \* upto of a failed round that the persister will retry (0: none)
-    faults, crashes, reverts,
+    faults, crashes, reverts, reopens,
+    nextSeq,        \* Store.nextFNameSeq: file sequence numbers are never reused while the store is open
     hist
 
-vars == <<nb, files, cur, open, ro, pc, snaps, rm, synced, errs, lastRound, pend, faults, crashes, reverts, hist>>
-view == <<nb, files, cur, open, ro, pc, snaps, rm, synced, errs, lastRound, pend, faults, crashes, reverts>>
+vars == <<nb, files, cur, open, ro, pc, snaps, rm, synced, errs, lastRound, pend, faults, crashes, reverts, reopens, nextSeq, hist>>
+view == <<nb, files, cur, open, ro, pc, snaps, rm, synced, errs, lastRound, pend, faults, crashes, reverts, reopens, nextSeq>>
 
 \* What batch n does to key k: "set" (value n), "del" or "none".  Batch n sets key
 \* ((n-1) % NKeys)+1 and, when n is even, deletes the next key, so that overwrites and
@@ -91,9 +93,10 @@ Readable(ft) == ft.file = 0 \/ Tiles(ft.file, ft.segs, 1, 0) = ft.upto
 Refs(f) == (IF cur.file = f THEN 1 ELSE 0) + Cardinality({i \in 1..MaxSnaps : snaps[i].file = f})
           + (IF pc.k # "idle" /\ pc.f = f THEN 1 ELSE 0)
 
-NextFile == IF \E f \in 1..MaxFiles : files[f].ex
-            THEN (CHOOSE f \in 1..MaxFiles : files[f].ex /\ \A g \in 1..MaxFiles : files[g].ex => g <= f) + 1
-            ELSE 1
+MaxExisting(fs) == IF \E f \in 1..MaxFiles : fs[f].ex
+                   THEN CHOOSE f \in 1..MaxFiles : fs[f].ex /\ \A g \in 1..MaxFiles : fs[g].ex => g <= f
+                   ELSE 0
+NextFile == nextSeq
 
 -----------------------------------------------------------------------------
 Init ==
@@ -105,7 +108,8 @@ Init ==
     /\ snaps = [i \in 1..MaxSnaps |-> NoFooter]
     /\ rm = {}
     /\ synced = 0 /\ errs = 0 /\ lastRound = "none" /\ pend = 0
-    /\ faults = 0 /\ crashes = 0 /\ reverts = 0
+    /\ faults = 0 /\ crashes = 0 /\ reverts = 0 /\ reopens = 0
+    /\ nextSeq = 1
     /\ hist = <<>>
 
 Log(a, arg) == hist' = Append(hist, [act |-> a, arg |-> arg,
@@ -114,13 +118,14 @@ Log(a, arg) == hist' = Append(hist, [act |-> a, arg |-> arg,
                              st |-> ContentUpto(cur'.upto), co |-> ContentUpto(nb'),
                              sn |-> [i \in 1..MaxSnaps |-> [on |-> snaps'[i] # NoFooter, upto |-> snaps'[i].upto,
                                                              c |-> ContentUpto(snaps'[i].upto)]],
-                             ex |-> [f \in 1..MaxFiles |-> files'[f].ex]]])
+                             ex |-> [f \in 1..MaxFiles |-> files'[f].ex],
+                             keep |-> [f \in 1..MaxFiles |-> files'[f].ex /\ ~(f \in rm' /\ Refs(f)' = 0)]]])
 
 \* A batch is executed on the collection above the store.
 NewBatch ==
     /\ open /\ ~ro /\ pc.k = "idle" /\ nb < MaxBatches
     /\ nb' = nb + 1
-    /\ UNCHANGED <<files, cur, open, ro, pc, snaps, rm, synced, errs, lastRound, pend, faults, crashes, reverts>>
+    /\ UNCHANGED <<files, cur, open, ro, pc, snaps, rm, synced, errs, lastRound, pend, faults, crashes, reverts, reopens, nextSeq>>
     /\ Log("NewBatch", [n |-> nb + 1, ops |-> [k \in 1..NKeys |-> BatchOp(nb + 1, k)]])
 
 -----------------------------------------------------------------------------
@@ -137,7 +142,7 @@ Begin(kind, splice) ==
     /\ kind # "partial" => splice = 0
     /\ pc' = [NoPc EXCEPT !.k = kind, !.s = 1, !.upto = IF pend > 0 THEN pend ELSE nb, !.splice = splice]
     /\ lastRound' = "none"
-    /\ UNCHANGED <<nb, files, cur, open, ro, snaps, rm, synced, errs, pend, faults, crashes, reverts>>
+    /\ UNCHANGED <<nb, files, cur, open, ro, snaps, rm, synced, errs, pend, faults, crashes, reverts, reopens, nextSeq>>
     /\ Log("Begin", [kind |-> kind, splice |-> splice])
 
 \* step 1: startOrReuseFile / startFileLOCKED (create + persistHeader)
@@ -145,11 +150,12 @@ StepFile ==
     /\ pc.s = 1
     /\ IF pc.k # "full" /\ CanReuse
        THEN /\ pc' = [pc EXCEPT !.s = 2, !.f = cur.file]
-            /\ files' = files
+            /\ files' = files /\ nextSeq' = nextSeq
        ELSE /\ NextFile <= MaxFiles
             /\ files' = [files EXCEPT ![NextFile] = [ex |-> TRUE, recs |-> <<Hdr>>]]
             /\ pc' = [pc EXCEPT !.s = 2, !.f = NextFile]
-    /\ UNCHANGED <<nb, cur, open, ro, snaps, rm, synced, errs, lastRound, pend, faults, crashes, reverts, hist>>
+            /\ nextSeq' = nextSeq + 1
+    /\ UNCHANGED <<nb, cur, open, ro, snaps, rm, synced, errs, lastRound, pend, faults, crashes, reverts, reopens, hist>>
 
 \* step 2: persistSegments / writeSegments
 StepSeg ==
@@ -162,14 +168,14 @@ StepSeg ==
           THEN /\ files' = files /\ pc' = [pc EXCEPT !.s = 3, !.seg = 0]     \* nothing to write (idle compaction of one segment is refused earlier)
           ELSE /\ files' = Append2(pc.f, r)
                /\ pc' = [pc EXCEPT !.s = 3, !.seg = Len(Recs(pc.f)) + 1]
-    /\ UNCHANGED <<nb, cur, open, ro, snaps, rm, synced, errs, lastRound, pend, faults, crashes, reverts, hist>>
+    /\ UNCHANGED <<nb, cur, open, ro, snaps, rm, synced, errs, lastRound, pend, faults, crashes, reverts, reopens, nextSeq, hist>>
 
 \* steps 3 and 5: persistFooter's syncs (skipped with NoSync)
 StepSync ==
     /\ pc.s \in {3, 5}
     /\ files' = IF NoSync THEN files ELSE SyncFile(files, pc.f)
     /\ pc' = [pc EXCEPT !.s = pc.s + 1]
-    /\ UNCHANGED <<nb, cur, open, ro, snaps, rm, synced, errs, lastRound, pend, faults, crashes, reverts, hist>>
+    /\ UNCHANGED <<nb, cur, open, ro, snaps, rm, synced, errs, lastRound, pend, faults, crashes, reverts, reopens, nextSeq, hist>>
 
 NewSegs ==
     CASE pc.k = "append"  -> cur.segs \o (IF pc.seg = 0 THEN <<>> ELSE <<pc.seg>>)
@@ -182,7 +188,7 @@ StepFooter ==
     /\ LET prev == IF pc.k = "append" /\ pc.f = cur.file THEN cur.pos ELSE 0 IN
        files' = Append2(pc.f, Ftr(NewSegs, prev, pc.upto))
     /\ pc' = [pc EXCEPT !.s = 5, !.ftr = Len(Recs(pc.f)) + 1]
-    /\ UNCHANGED <<nb, cur, open, ro, snaps, rm, synced, errs, lastRound, pend, faults, crashes, reverts, hist>>
+    /\ UNCHANGED <<nb, cur, open, ro, snaps, rm, synced, errs, lastRound, pend, faults, crashes, reverts, reopens, nextSeq, hist>>
 
 \* step 6: publish the footer; a full compaction schedules the old file for removal.
 StepSwap ==
@@ -194,7 +200,7 @@ StepSwap ==
     /\ pc' = NoPc
     /\ lastRound' = "ok"
     /\ pend' = 0
-    /\ UNCHANGED <<nb, files, open, ro, snaps, errs, faults, crashes, reverts>>
+    /\ UNCHANGED <<nb, files, open, ro, snaps, errs, faults, crashes, reverts, reopens, nextSeq>>
     /\ Log("RoundOk", [kind |-> pc.k])
 
 \* A file whose last reference is gone is removed (asynchronously in the code).
@@ -202,7 +208,7 @@ RemoveFile(f) ==
     /\ f \in rm /\ files[f].ex /\ Refs(f) = 0
     /\ files' = [files EXCEPT ![f] = [ex |-> FALSE, recs |-> <<>>]]
     /\ rm' = rm \ {f}
-    /\ UNCHANGED <<nb, cur, open, ro, pc, snaps, synced, errs, lastRound, pend, faults, crashes, reverts, hist>>
+    /\ UNCHANGED <<nb, cur, open, ro, pc, snaps, synced, errs, lastRound, pend, faults, crashes, reverts, reopens, nextSeq, hist>>
 
 -----------------------------------------------------------------------------
 (* I/O failures: the pending file operation of the round fails.  The write
@@ -229,8 +235,10 @@ IOFail ==
             /\ pend' = pc.upto
             \* a compaction file that was started is scheduled for removal
             /\ rm' = IF pc.k = "full" /\ pc.s > 1 THEN rm \cup {pc.f} ELSE rm
-    /\ UNCHANGED <<nb, cur, open, ro, snaps, synced, crashes, reverts>>
-    /\ Log("IOFail", [kind |-> pc.k, step |-> pc.s, newfile |-> (pc.k = "full" \/ ~CanReuse)])
+    /\ nextSeq' = IF pc.s = 1 THEN nextSeq + 1 ELSE nextSeq     \* createNextFileLOCKED consumes the sequence number first
+    /\ UNCHANGED <<nb, cur, open, ro, snaps, synced, crashes, reverts, reopens>>
+    /\ Log("IOFail", [kind |-> pc.k, step |-> pc.s, newfile |-> (pc.k = "full" \/ ~CanReuse),
+                       pre |-> [j \in 1..(nb + 1) |-> ContentUpto(j - 1)]])
 
 -----------------------------------------------------------------------------
 (* Store snapshots, history and revert. *)
@@ -238,7 +246,7 @@ IOFail ==
 TakeSnap(i) ==
     /\ open /\ snaps[i] = NoFooter /\ cur.file # 0
     /\ snaps' = [snaps EXCEPT ![i] = cur]
-    /\ UNCHANGED <<nb, files, cur, open, ro, pc, rm, synced, errs, lastRound, pend, faults, crashes, reverts>>
+    /\ UNCHANGED <<nb, files, cur, open, ro, pc, rm, synced, errs, lastRound, pend, faults, crashes, reverts, reopens, nextSeq>>
     /\ Log("TakeSnap", [id |-> i])
 
 \* SnapshotPrevious: the footer record the back-link points to.
@@ -248,13 +256,13 @@ Previous(i) ==
        IF ft.prev = 0 THEN snaps' = [snaps EXCEPT ![i] = NoFooter]
        ELSE LET r == Recs(ft.file)[ft.prev] IN
             snaps' = [snaps EXCEPT ![i] = [file |-> ft.file, pos |-> ft.prev, segs |-> r.segs, upto |-> r.upto, prev |-> r.prev]]
-    /\ UNCHANGED <<nb, files, cur, open, ro, pc, rm, synced, errs, lastRound, pend, faults, crashes, reverts>>
+    /\ UNCHANGED <<nb, files, cur, open, ro, pc, rm, synced, errs, lastRound, pend, faults, crashes, reverts, reopens, nextSeq>>
     /\ Log("Previous", [id |-> i])
 
 CloseSnap(i) ==
     /\ snaps[i] # NoFooter
     /\ snaps' = [snaps EXCEPT ![i] = NoFooter]
-    /\ UNCHANGED <<nb, files, cur, open, ro, pc, rm, synced, errs, lastRound, pend, faults, crashes, reverts>>
+    /\ UNCHANGED <<nb, files, cur, open, ro, pc, rm, synced, errs, lastRound, pend, faults, crashes, reverts, reopens, nextSeq>>
     /\ Log("CloseSnap", [id |-> i])
 
 \* SnapshotRevert (store_revert.go): sync, append a copy of the footer, sync, publish.
@@ -272,7 +280,7 @@ Revert(i) ==
           /\ synced' = ft.upto
     /\ reverts' = reverts + 1
     /\ pend' = 0
-    /\ UNCHANGED <<open, ro, pc, snaps, rm, errs, lastRound, faults, crashes>>
+    /\ UNCHANGED <<open, ro, pc, snaps, rm, errs, lastRound, faults, crashes, reopens, nextSeq>>
     /\ Log("Revert", [id |-> i])
 
 -----------------------------------------------------------------------------
@@ -287,7 +295,7 @@ CloseStore ==
     /\ rm' = {}
     /\ nb' = cur.upto        \* what was not persisted is gone with the collection
     /\ pend' = 0
-    /\ UNCHANGED <<pc, snaps, synced, errs, lastRound, faults, crashes, reverts>>
+    /\ UNCHANGED <<pc, snaps, synced, errs, lastRound, faults, crashes, reverts, reopens, nextSeq>>
     /\ Log("CloseStore", [x |-> 0])
 
 \* openStore (store.go:517-636) + ScanFooter (store_footer.go:135-235).
@@ -321,7 +329,9 @@ Recover(fs, readOnly, keepFiles) ==
     LET pk == Pick(fs, Existing(fs)) IN
     IF pk[1] = -1
     THEN /\ open' = FALSE /\ errs' = errs + 1 /\ cur' = NoFooter /\ files' = fs /\ nb' = nb /\ ro' = FALSE
+         /\ nextSeq' = MaxExisting(fs) + 1
     ELSE /\ open' = TRUE /\ errs' = errs /\ ro' = readOnly
+         /\ nextSeq' = MaxExisting(fs) + 1      \* maxFNameSeq + 1 (from the listing, before any cleanup)
          /\ IF pk[1] = 0
             THEN cur' = NoFooter /\ nb' = 0 /\ files' = fs
             ELSE LET r == fs[pk[1]].recs[pk[2]] IN
@@ -341,37 +351,39 @@ Crash ==
     /\ pc' = NoPc /\ snaps' = [i \in 1..MaxSnaps |-> NoFooter] /\ rm' = {}
     /\ lastRound' = "none"
     /\ synced' = synced /\ pend' = 0
-    /\ UNCHANGED <<faults, reverts>>
-    /\ \E img \in [1..MaxFiles -> BOOLEAN \X (0..MaxRecs) \X BOOLEAN] :
-         \* img[f] = <<unused, number of surviving records, last one torn>>
-         LET fs == [f \in 1..MaxFiles |->
+    /\ UNCHANGED <<faults, reverts, reopens>>
+    /\ LET Unsynced(f) == files[f].ex /\ \E i \in 1..Len(Recs(f)) : ~Recs(f)[i].sy
+           Var == {f \in 1..MaxFiles : Unsynced(f)}
+       IN \E ch \in [Var -> (0..MaxRecs) \X BOOLEAN] :
+         \* img[f] = <<number of surviving records, last one torn>>
+         LET img == [f \in 1..MaxFiles |-> IF f \in Var THEN ch[f] ELSE <<Len(Recs(f)), FALSE>>]
+             fs == [f \in 1..MaxFiles |->
                       IF ~files[f].ex THEN files[f]
-                      ELSE LET n == img[f][2] torn == img[f][3] old == Recs(f) IN
+                      ELSE LET n == img[f][1] torn == img[f][2] old == Recs(f) IN
                            [ex |-> TRUE,
                             recs |-> [i \in 1..n |-> IF i = n /\ torn THEN [old[i] EXCEPT !.st = "torn"] ELSE old[i]]]]
-         IN /\ \A f \in 1..MaxFiles :
-                 IF ~files[f].ex THEN img[f] = <<FALSE, 0, FALSE>>
-                 ELSE /\ img[f][1] = FALSE
-                      /\ img[f][2] <= Len(Recs(f))
-                      /\ \A i \in (img[f][2] + 1)..Len(Recs(f)) : ~Recs(f)[i].sy      \* only unsynced records are lost
-                      /\ img[f][3] => (img[f][2] >= 1 /\ ~Recs(f)[img[f][2]].sy)      \* only an unsynced record is torn
-                      /\ NoSync => (img[f][2] = Len(Recs(f)))                         \* process kill: nothing is lost
+         IN /\ \A f \in Var :
+                 /\ img[f][1] <= Len(Recs(f))
+                 /\ \A i \in (img[f][1] + 1)..Len(Recs(f)) : ~Recs(f)[i].sy      \* only unsynced records are lost
+                 /\ img[f][2] => (img[f][1] >= 1 /\ ~Recs(f)[img[f][1]].sy)      \* only an unsynced record is torn
+                 /\ NoSync => (img[f][1] = Len(Recs(f)))                         \* process kill: nothing is lost
             /\ Recover(fs, FALSE, FALSE)
-            /\ Log("Crash", [img |-> [f \in 1..MaxFiles |-> [n |-> img[f][2], torn |-> img[f][3]]],
-                              k |-> pc.k, s |-> pc.s,
+            /\ Log("Crash", [img |-> [f \in 1..MaxFiles |-> [n |-> img[f][1], torn |-> img[f][2]]],
+                              k |-> pc.k, s |-> pc.s, fex |-> [f \in 1..MaxFiles |-> files[f].ex],
                               pre |-> [j \in 1..(nb + 1) |-> ContentUpto(j - 1)]])
 
 Reopen(readOnly) ==
-    /\ ~open /\ (readOnly => AllowReadOnly)
+    /\ ~open /\ (readOnly => AllowReadOnly) /\ reopens < MaxReopens
     /\ Recover(files, readOnly, FALSE)
     /\ pc' = NoPc
+    /\ reopens' = reopens + 1
     /\ UNCHANGED <<snaps, rm, synced, lastRound, pend, faults, crashes, reverts>>
     /\ Log("Reopen", [ro |-> readOnly])
 
 \* A read-only store accepts Persist calls but does nothing.
 ReadOnlyPersist ==
     /\ open /\ ro
-    /\ UNCHANGED <<nb, files, cur, open, ro, pc, snaps, rm, synced, errs, lastRound, pend, faults, crashes, reverts>>
+    /\ UNCHANGED <<nb, files, cur, open, ro, pc, snaps, rm, synced, errs, lastRound, pend, faults, crashes, reverts, reopens, nextSeq>>
     /\ Log("ReadOnlyPersist", [x |-> 0])
 
 -----------------------------------------------------------------------------
